@@ -52,6 +52,13 @@ def gen_chain(rng, cfg):
             items.append("r%d" % rng.randint(1, 50))
         if rng.random() < 0.25:
             items = [x for x in items if not x.startswith("i")]         # initial = max_tokens at build()
+        elif rng.random() < 0.35:
+            # the initial balance is set while it EQUALS the capacity then in force (the default 100, or an earlier
+            # max_tokens), and the capacity is raised afterwards: the bucket is funded with the initial balance given
+            a = rng.choice([100, 100, 2, 3])
+            b = a + rng.choice([1, 5, 400])
+            pre = [] if a == 100 else ["m%d" % a]
+            return {"kind": "token", "chain": ".".join(pre + ["i%d" % a, "m%d" % b])}
     else:
         items = ["n%d" % cfg["min"], "x%d" % cfg["max"], "d%d" % cfg["dep"], "w%d" % cfg["wd"], "f%d_%d" % (cfg["fnum"], cfg["fden"])]
         if rng.random() < 0.3:
